@@ -12,6 +12,7 @@ Imports model and spec only — no proof modules, no Mathlib — so that it link
 import PqlModel.Model.Lex
 import PqlModel.Model.Parse
 import PqlModel.Model.Walk
+import PqlModel.Model.Compile
 import PqlModel.Spec.LexOracle
 import PqlModel.Spec.ParseOracle
 import PqlModel.Spec.WalkOracle
@@ -53,6 +54,26 @@ def fmtWalk (src : Bytes) (mask : String) : String :=
   else
     let traces := r.1.map fun st => " ".intercalate ((walk (maskDecide mask) (Node.ofStmt st)).map fmtEvent)
     toString r.1.length ++ (if traces.isEmpty then "" else " ;; " ++ " ;; ".intercalate traces)
+
+/-- "khex:vhex,…", "-" (nil options) or "=" (empty map) -/
+def parseParams (f : String) : Option (List (Bytes × Bytes)) :=
+  if f == "-" || f == "=" then some []
+  else (f.splitOn ",").mapM fun kv =>
+    match kv.splitOn ":" with
+    | [k, v] => do
+      let k ← Bytes.ofHex k
+      let v ← Bytes.ofHex v
+      pure (k, v)
+    | _ => none
+
+def fmtCompile : CompileResult → String
+  | .ok sql => "OK " ++ Bytes.toHexField sql
+  | .error => "ERR"
+  | .panic => "PANIC"
+
+/-- the implementation's compile result with positions and panic text dropped -/
+def normCompile (impl : String) : String :=
+  if impl.startsWith "ERR" then "ERR" else if impl.startsWith "PANIC" then "PANIC" else impl
 
 structure Verdict where
   model : String
@@ -98,6 +119,15 @@ def runOp (op : String) (fields : List String) (impl : String) : Option Verdict 
           else (r.1.zip traces).flatMap fun (st, tr) => WalkOracle.clauses st.dump tr
         | [] => []
     pure { model := fmtWalk s (if mask == "-" then "" else mask), oracle }
+  | "COMPILE", [h, ps] => do
+    let s ← Bytes.ofHex h
+    let params ← parseParams ps
+    let m := fmtCompile (compile params s)
+    -- the model's text is compared with the normalised implementation result
+    pure { model := if m == normCompile impl then impl else m }
+  | "QUOTE", [which, h] => do
+    let s ← Bytes.ofHex h
+    pure { model := Bytes.toHexField (if which == "s" then quoteSQLString s else quoteIdentifier s) }
   | "PARSEV", [h] => do
     let s ← Bytes.ofHex h
     pure { model := fmtParse (parse s), oracle := ParseOracle.clauses s impl true }
